@@ -243,12 +243,12 @@ func main() {
 			c.HarnessError("configuration %s is not in general position: %s", cf.name, why)
 			continue
 		}
-		maxK := vlib.Pick(c, 6, 8)
+		maxK := vlib.Pick(c, 6, 9)
 		if cf.grid == 5 {
 			maxK = 6
 		}
 		if cf.name == "jitter0.3" && c.Thorough() {
-			maxK = 9
+			maxK = 10
 		}
 		subs := subsets(len(pts), 3, maxK)
 		var tr int64
